@@ -25,3 +25,35 @@ def known(kid):
         e1, e2 = _exprs("2**(-1)*2", "1")
         return sm.equal(e1, e2) is True        # Fortran: 0 vs 1
     return None
+
+
+def renaming_cases():
+    """BOUNDED: expressions over variables whose names are reserved in SymPy
+    (lambda, in, ...) together with the names the writer would rename them
+    to; different variables must never be declared equal, identical
+    expressions must be.  [(pair, ok, detail)]"""
+    from psyclone.core import SymbolicMaths
+    from psyclone.psyir.frontend.fortran import FortranReader
+    from psyclone.psyir.nodes import Assignment
+    pairs = [("lambda(i)", "lambda_1(i)", False),
+             ("2*in(i+1)", "in_1(i+1)*2", False),
+             ("j + lambda(1)", "j + lambda_1(1)", False),
+             ("max(in(i), j)", "max(j, in_1(i))", False),
+             ("lambda + 1", "lambda_1 + 1", False),
+             ("lambda(i)", "lambda(i)", True),
+             ("lambda_1(i+1)", "lambda_1(1+i)", True),
+             ("in + lambda", "lambda + in", True)]
+    out = []
+    sm = SymbolicMaths.get()
+    for t1, t2, same in pairs:
+        arr = "(10)" if "(" in t1 else ""
+        src = (f"subroutine s()\n  integer :: lambda{arr}, lambda_1{arr}, "
+               f"in{arr}, in_1{arr}, i, j, r1, r2\n  r1 = {t1}\n  r2 = {t2}\n"
+               "end subroutine s\n")
+        asg = FortranReader().psyir_from_source(src).walk(Assignment)
+        got = sm.equal(asg[0].rhs, asg[1].rhs)
+        ok = (got == same)
+        out.append((f"{t1} ~ {t2}", ok, "" if ok else
+                    f"SymbolicMaths.equal({t1}, {t2}) is {got}; the "
+                    f"expressions {'are identical' if same else 'use different variables'}"))
+    return out
